@@ -113,7 +113,13 @@ def check_case(kind, depth, acc, apex, cs, part, full_cache):
                 a1 = (one.count_leaf_tiles(), one.count_live_tiles(), one.count_operations())
                 v = []
                 one.visit_leaves(lambda pos, tile: v.append(tuple(pos)), parallel=1)
+                w1, w2, v2 = [], [], []
+                one.walk(lambda pos: w1.append(tuple(pos)), parallel=1)
+                one.walk(lambda pos: w2.append(tuple(pos)), parallel=1)
+                one.visit_leaves(lambda pos, tile: v2.append(tuple(pos)), parallel=1)
                 a2 = (one.count_leaf_tiles(), one.count_live_tiles(), one.count_operations())
+            if w1 != w2 or v != v2 or sorted(w1) != sorted(tuple(p) for p in model.ops):
+                bad("history/second-walk-differs", "walking or visiting the same instance twice gives different callbacks (%d vs %d walk callbacks, %d vs %d leaves)" % (len(w1), len(w2), len(v), len(v2)))
             if a1 != a2 or a1 != (n_leaf_ref, n_live_ref, n_ops_ref):
                 bad("history/counts-change-between-calls", "one instance: %r then %r, reference %r" % (a1, a2, (n_leaf_ref, n_live_ref, n_ops_ref)))
         except Exception as e:
